@@ -31,8 +31,9 @@ STM32, NRF51 = 0xFF, 0xFE
 ADDR = {'stm32': STM32, 'nrf51': NRF51}
 NAME = {STM32: 'stm32', NRF51: 'nrf51'}
 FRAME_MAX_DATA = 31          # "header plus at most 31 bytes"
-RETRY_BOUND = 16             # "a bounded number of times": generous fixed bound (the code uses 6)
-NODE_BUDGET = 400000         # per worker job; never reached on the unchanged tree (largest job ~25k)
+RETRY_BOUND = 8              # "a bounded number of times": fixed bound with slack (the code sends at most 6)
+NODE_BUDGET = 150000         # per worker job; never reached on the unchanged tree
+AFTER_VIOLATION = 2000       # executions a job may still spend after its first violation
 MAX_PACKETS_FACTOR = 8       # runaway guard on the total number of uplink packets
 
 # environment letters for one flash-write attempt (one WRITE_FLASH command received/lost)
@@ -289,7 +290,7 @@ def run_case(case, tmpdir=None):
     from cflib.bootloader import Bootloader, FlashArtifact
     from cflib.bootloader import Target as BTarget
     geos = {ADDR[k]: tuple(v) for k, v in case['geo'].items()}
-    dev = SimDev(geos, case.get('pat', ()), packet_budget=_expected_packets(case))
+    dev = SimDev(geos, case.get('pat', ()), proto=case.get('proto', 0x10), packet_budget=_expected_packets(case))
     _CUR['dev'] = dev
     msgs = []
     saved = sys.stdout
@@ -524,7 +525,7 @@ def judge(case, obs):
     elif all_ok and res[0] == 'raised':
         e = exp[order[0]]
         viol('fit:raised:%s:%s' % (res[1], e['cls']),
-             'image fits and every flash-write was answered positively, yet flashing raised %s(%s)' % (res[1], res[2]))
+             'image fits and the environment answers every in-range flash-write positively, yet flashing raised %s(%s)' % (res[1], res[2]))
 
     # ---- final flash
     dev = obs['dev']
@@ -577,7 +578,7 @@ def judge(case, obs):
 # bookkeeping of one case
 
 def _case_key(case):
-    return (case['mode'], case.get('cb', 0), tuple(sorted((k, tuple(v)) for k, v in case['geo'].items())),
+    return (case['mode'], case.get('cb', 0), case.get('proto', 0x10), tuple(sorted((k, tuple(v)) for k, v in case['geo'].items())),
             tuple(tuple(a) for a in case['arts']), tuple(case.get('pat', ())))
 
 
@@ -638,12 +639,15 @@ def _lengths_boundary(ps, bp, fp, start):
 
 def job_sweep(job):
     """all-ok environment, every listed image length of one geometry/target/override."""
-    _, tgt, geo, ov, cb, which = job
+    _, tgt, geo, ov, cb, which = job[:6]
     p = Partial()
     start = geo[3] if ov is None else ov
     lens = (_lengths_all if which == 'all' else _lengths_boundary)(geo[0], geo[1], geo[2], start)
     for n in lens:
-        do_case(p, _mk('internal', tgt, geo, n, ov, (), cb))
+        case = _mk('internal', tgt, geo, n, ov, (), cb)
+        if len(job) > 6:
+            case['proto'] = job[6]
+        do_case(p, case)
     return p
 
 
@@ -652,6 +656,7 @@ def _explore(p, base, letters, max_dev, root=(), tmpdir=None):
     parent's execution actually reached (so every distinct reachable pattern is run exactly once)."""
     stack = [tuple(root)]
     runs = 0
+    budget = NODE_BUDGET
     while stack:
         pat = stack.pop()
         case = dict(base)
@@ -659,11 +664,13 @@ def _explore(p, base, letters, max_dev, root=(), tmpdir=None):
         before = p.viol_count
         obs, _ = do_case(p, case, tmpdir)
         runs += 1
-        if p.viol_count != before:
-            continue                      # a violating execution is reported, not deepened
-        if runs >= NODE_BUDGET:
-            p.cap('pattern tree job stopped after %d executions' % NODE_BUDGET)
+        if runs >= budget:
+            p.cap('a pattern tree job stopped %s' % ('%d executions after its first violation' % AFTER_VIOLATION
+                                                     if budget < NODE_BUDGET else 'after %d executions' % NODE_BUDGET))
             break
+        if p.viol_count != before:
+            budget = min(budget, runs + AFTER_VIOLATION)
+            continue                      # a violating execution is reported, not deepened
         n_att = obs['attempts']
         devs = sum(1 for x in pat if x != OK)
         if max_dev is not None and devs >= max_dev:
@@ -746,7 +753,9 @@ def run(ck):
               'past the 2.5 s timeout into a later flash-write (the protocol has no sequence numbers) are not modelled')
     ck.assume('time.time/time.sleep of cflib.bootloader and cflib.bootloader.cloader are a virtual clock; '
               'cflib.crtp.get_link_driver hands out the scripted link')
-    ck.assume('"bounded number of times" is checked as <= %d sends of one flash-write command' % RETRY_BOUND)
+    ck.assume('"bounded number of times" is checked as <= %d sends of one flash-write command (the code sends at most '
+              '6); image content and initial flash content are fixed pseudo-random byte streams with disjoint value '
+              'ranges (image < 0x80 <= flash), the property is assumed content-independent' % RETRY_BOUND)
     jobs = []
     # ---- showcase cases with the real CF2 geometries (also the evidence samples)
     real_s, real_n = [1024, 10, 1024, 16], [1024, 1, 232, 88]
@@ -766,7 +775,7 @@ def run(ck):
         do_case(ck, {'mode': 'zip', 'cb': 0, 'geo': {'stm32': [64, 3, 32, 4], 'nrf51': [50, 1, 96, 88]},
                      'arts': [['stm32', 500, None], ['nrf51', 175, None]], 'pat': []}, td, sample=True)
         do_case(ck, {'mode': 'bin', 'cb': 1, 'geo': {'stm32': [64, 3, 32, 4], 'nrf51': [50, 1, 96, 88]},
-                     'arts': [['nrf51', 401, None]], 'pat': []}, td, sample=True)
+                     'arts': [['nrf51', 400, None]], 'pat': []}, td, sample=True)
     if not quick:
         cap = (1024 - 16) * 1024
         for n in (cap - 1, cap, cap + 1):
@@ -786,6 +795,11 @@ def run(ck):
                         for tgt in ('stm32', 'nrf51'):
                             cb = 1 if (bp == 3 and fp == 8) else 0
                             jobs.append(('sweep', tgt, [ps, bp, fp, sp], ov, cb, 'all'))
+    # Crazyflie 1 bootloader protocol versions (single target, no mapping request)
+    for proto in (0x00, 0x01):
+        for geo in ([16, 1, 8, 1], [26, 3, 8, 1], [50, 10, 128, 3]) if quick else (
+                [16, 1, 8, 1], [26, 3, 8, 1], [50, 10, 128, 3], [25, 2, 8, 0], [64, 3, 4, 1], [1024, 10, 128, 10]):
+            jobs.append(('sweep', 'stm32', geo, None, proto, 'all' if geo[0] < 1000 else 'boundary', proto))
     if not quick:
         for ps in (256, 1024):
             for bp in (1, 2, 10):
